@@ -150,7 +150,7 @@ class C08(Prop):
         "guess_spec", "msa_guess_spec", "msa_vote_spec", "round_half_away", "iavg_score_rounding", "iexpect_score_rounding",
         "iscvec_spec", "sq_count_residues_text_spec", "textizen_spec", "dsqrlen_dsqdup_spec", "count_nondegenerate_codes",
         "custom_rejected_calls", "custom_setdegeneracy_post", "custom_ignored_caseins_post",
-        "char_classes_regenerated", "guess_probe_regenerated", "sq_guess_counts_all",
+        "char_classes_regenerated", "guess_probe_regenerated", "sq_guess_counts_all", "sq_copy_spec",
     )]
     claimed = True
     technique = ("Lean 4 proof: table theorems closed by `decide` over the whole regenerated tables (vs a hand-written IUPAC statement), "
@@ -169,6 +169,7 @@ class C08(Prop):
                   "Round 4: esl_abc_GuessAlphabet IS the documented decision list of the 26 counts (guess_spec); the counting loop of esl_sq_GuessAlphabet on every 8-bit string counts the shortest prefix with 10001 letters; esl_msa_GuessAlphabet = vote over the rows, else the pooled composition, never a fault; "
                   "esl_abc_IAvgScore/IExpectScore = the exact (weighted) mean rounded half away from zero (unique nearest integer, ties to the larger magnitude, odd), I*ScVec fill exactly the degenerate slots; text-mode esl_sq_CountResidues for every byte string (bytes outside the alphabet skipped, eslERANGE iff start<0 or start+L>n, equal to the digital count on valid text); "
                   "esl_abc_TextizeN for every window (inside: L symbols and no NUL; reaching a sentinel: NUL there); dsqrlen, dsqdup/dsqcpy, Count on canonical/gap/nonresidue/missing; a rejected SetDegeneracy/SetCaseInsensitive leaves exactly the effect of the accepted prefix of its argument, accepted SetDegeneracy/SetIgnored/SetCaseInsensitive satisfy their documented postconditions; "
+                  "esl_sq_Copy in all four text/digital combinations converts faithfully and leaves n = sequence length (text->digital refuses ignored/invalid characters); "
                   "the character-class macros esl_abc_{C,X}Is* on all 256 chars/codes of the 5 alphabets and 78 GuessAlphabet probe compositions are regenerated from the tree and closed by decide. "
                   "The hand model is tied to the tree by an exact differential run (all single bytes, random strings up to 10^4, custom alphabets).")
     level_note = ("Trusted: Lean kernel + propext/Classical.choice/Quot.sound; table dumper; fidelity of the hand model is checked (not proved) by the "
@@ -251,6 +252,15 @@ class C08(Prop):
                     ops.append("textizen off=%d L=%d" % (off, L))
             ops += ["dsqdup L=known", "dsqdup L=unknown", "dsqcpy", "dsqnull", "dsqdup L=unknown"]
             out.append({"name": "ties-windows-%s" % name, "ops": ops, "sticky": 1})
+        for name in STD:
+            ops = ["abc type=%s" % name] + ["sqcopy from=text to=digital hex=41%02x43" % c for c in range(1, 256)]
+            ops += ["sqcopy from=digital to=text hex=%s" % hx(bytes(range(len(STD[name][0])))), "sqcopy from=digital to=digital hex=%s" % hx(bytes(range(len(STD[name][0])))),
+                    "sqcopy from=digital to=digital other=1 hex=0001", "sqcopy from=text to=text hex=%s" % hx(bytes(range(1, 256)))]
+            out.append({"name": "sqcopy-%s" % name, "ops": ops, "sticky": 1})
+        # regression (fixed in 6b1a313): esl_sq_Copy text -> digital with a character the alphabet ignores left dst->n > the digital length
+        out.append({"name": "sqcopy-ignored", "ops": ["abc type=dna", "ignored chars=2009", "dump", "sqcopy from=text to=digital hex=%s" % hx(b"AC GT ACGT"),
+                                                       "sqcopy from=text to=digital hex=%s" % hx(b"ACGTACGT"), "sqcopy from=text to=text hex=%s" % hx(b"AC GT ACGT")],
+                    "sticky": 2})
         gops = []
         for c in range(1, 256):
             gops.append("sqguess hex=%s" % hx(bytes([c]) * 12))
@@ -451,6 +461,18 @@ class C08(Prop):
                 start = rng.choice([-1, 0, 0, 0, 1, n - 1, n, n + 1, rng.randrange(0, n + 1)])
                 L = rng.choice([-1, 0, 1, n, n - start, n - start + 1, n - start - 1, rng.randrange(0, n + 1)])
                 ops.append("sqccount hex=%s start=%d L=%d" % (hx(sq), start, L))
+        if rng.random() < 0.3:
+            # esl_sq_Copy across the four text/digital combinations (ignored characters included: rejected like invalid ones since 6b1a313)
+            for _ in range(rng.randrange(1, 4)):
+                n = rng.choice([0, 1, 2, 40, 254, 255, 256, 257, rng.randrange(0, 600)])
+                if rng.random() < 0.5:
+                    p2 = dict(pools)
+                    txt = bytes(c for c in self.rand_string(rng, p2, n, True) if c != 0)
+                    ops.append("sqcopy from=text to=%s hex=%s" % (rng.choice(["text", "digital", "digital"]), hx(txt)))
+                else:
+                    codes = bytes(rng.randrange(0, Kp) for _ in range(n))
+                    to = rng.choice(["text", "digital", "digital"])
+                    ops.append("sqcopy from=digital to=%s hex=%s%s" % (to, hx(codes), " other=1" if to == "digital" and std and rng.random() < 0.2 else ""))
         if rng.random() < 0.2:
             ops.append(self.msa_op(rng))
         if rng.random() < 0.3:
@@ -879,6 +901,25 @@ class C08(Prop):
                                 if a.degen[c][y]: want[y] += 1.0 / a.ndegen[c]
                     if any(math.isnan(f[y]) or abs(f[y] - want[y]) > 1e-3 * (1 + want[y]) for y in range(a.K)):
                         return Failure("monitor", "esl_sq_CountResidues: counts are not the equal split over the degeneracy sets of the residues in range")
+            elif name == "sqcopy":
+                if l.startswith("exception"):
+                    if not (d.get("from") == "digital" and d.get("to") == "digital" and "other" in d and l == "exception eincompat"):
+                        return Failure("monitor", "esl_sq_Copy raised %s" % l)
+                    continue
+                r = kv(l); src = unhex(d["hex"])
+                if r["st"] == "ok" and (r["valid"] != "ok" or r["n"] != r["len"]):
+                    return Failure("monitor", "esl_sq_Copy returned eslOK but the copy is inconsistent: n=%s, sequence length %s, esl_sq_Validate %s" % (r["n"], r["len"], r["valid"]))
+                if r["st"] == "ok":
+                    got = unhex(r["body"])
+                    if d.get("from") == d.get("to"): want = src
+                    elif d.get("from") == "text": want = bytes(a.inmap[c] if c < 128 else ILLEGAL for c in src)
+                    else: want = bytes(a.sym[x] for x in src) if all(x < a.Kp for x in src) else None
+                    if want is not None and got != want:
+                        return Failure("monitor", "esl_sq_Copy %s -> %s: the copy is not the converted sequence" % (d.get("from"), d.get("to")))
+                elif d.get("from") == "text" and d.get("to") == "digital":
+                    if all(c < 128 and a.inmap[c] < a.Kp for c in src):
+                        return Failure("monitor", "esl_sq_Copy refuses a text of valid characters: %s" % r["st"])
+                    if r["n"] != "0": return Failure("monitor", "esl_sq_Copy failed but left n=%s" % r["n"])
             elif name == "sqccount":
                 src = unhex(d["hex"]); n = len(src); start = int(d.get("start", 0)); L = int(d.get("L", n))
                 st = l.split()[0]
